@@ -711,12 +711,14 @@ func (v *Protocol) WritePacket(pkt Packet, streamID int) (err error) {
 	m.streamID = uint32(streamID)
 	m.betterCid = pkt.BetterCid()
 
-	if err = v.WriteMessage(m); err != nil {
-		return oe.WithMessage(err, "write message")
-	}
-
+	// Register the request before it reaches the transport: the peer may answer
+	// and the reading goroutine may look the transaction up before WriteMessage returns.
 	if err = v.onPacketWriten(m, pkt); err != nil {
 		return oe.WithMessage(err, "on write packet")
+	}
+
+	if err = v.WriteMessage(m); err != nil {
+		return oe.WithMessage(err, "write message")
 	}
 
 	return
